@@ -89,6 +89,7 @@
     parameter per item, in order, each with its own name and the type ITS declarator denotes.
 -/
 import CxxModel.Theorems.DeclGenItems
+import CxxModel.Theorems.BaseItems
 import CxxModel.Tables
 import CxxModel.Props.C04
 import CxxModel.SimpleFold
@@ -840,6 +841,41 @@ example (env : Env) (hp : RulesProgress env.cfg = true) (hnf : env.faultAt = non
     rfl, rfl, by simp, rfl, rfl, by show 0 + 1 ≤ F; omega, Y [_, _, _] _ (by decide), ?_, (Y [tkw "}" "}"] [] (by decide)).single_inv, rfl⟩
   refine .cons (b1 := B _) ⟨refD_ok env F (D + 1 + 1) hF, Y refD.toks _ (by decide)⟩
     (.cons (b1 := B _) ⟨⟨rfl, by decide, tdD_ok env F (D + 1 + 1) hF⟩, Y (tkw "typedef" "typedef" :: tdD.toks) _ (by decide)⟩ (.nil _))
+/-! non-vacuity of classes with a base clause inside a whole source: the tokens of
+    `struct D : public A , virtual ns :: B ... { T f ; } ;` form an `Item`, so `C01_whole_source` applies to it and the class block
+    it reports lists the two bases `public A` and `public virtual ns::B...` (the `struct` default is `public`). -/
+private def baseA : BaseItem := { specs := [tkw "public" "public"], first := tkw "NAME" "A", pairs := [], pack := none }
+private def baseB : BaseItem :=
+  { specs := [tkw "virtual" "virtual"], first := tkw "NAME" "ns", pairs := [(tkw "DBL_COLON" "::", tkw "NAME" "B")], pack := some (tkw "ELLIPSIS" "...") }
+
+private theorem baseA_ok : baseA.OK := ⟨by decide, rfl, by decide, by decide, by decide, by intro t ht; cases ht⟩
+private theorem baseB_ok : baseB.OK := by
+  refine ⟨by decide, rfl, by decide, by decide, by decide, ?_⟩
+  intro t ht
+  simp only [baseB, Option.some.injEq] at ht
+  rw [← ht]; rfl
+
+example : (baseA.denotes "public").access = "public" ∧ (baseB.denotes "public").access = "public" ∧
+    (baseB.denotes "public").virtual = true ∧ (baseA.denotes "public").virtual = false ∧ (baseB.denotes "public").paramPack = true := by decide
+
+example (env : Env) (hp : RulesProgress env.cfg = true) (hnf : env.faultAt = none) (hskip : ∀ i h, env.skip i h = false)
+    (F D : Nat) (hF : 5 ≤ F) (lex : LexState) :
+    ∃ bE, (Item.clsB env hp hnf F D hskip (tkw "struct" "struct") (tkw "NAME" "D") [] [(baseA, tkw "," ",")] baseB
+        [Member.field env hp hnf F D (vdecl "f")]).At
+      { tokbuf := [tkw "struct" "struct", tkw "NAME" "D", tkw ":" ":", tkw "public" "public", tkw "NAME" "A", tkw "," ",",
+          tkw "virtual" "virtual", tkw "NAME" "ns", tkw "DBL_COLON" "::", tkw "NAME" "B", tkw "ELLIPSIS" "...", tkw "{" "{",
+          tkw "NAME" "T", tkw "NAME" "f", tkw ";" ";", tkw "}" "}", tkw ";" ";"], lex := lex, bounded := true } bE := by
+  let B : List Tok → Buf := fun l => { tokbuf := l, lex := lex, bounded := true }
+  have Y : ∀ (ts rest : List Tok), (∀ t ∈ ts, isDiscard t.type = false) → Yields env.cfg (B (ts ++ rest)) ts (B rest) :=
+    fun ts rest h => Yields.of_tokbuf env.cfg lex true ts rest h
+  refine ⟨B [], tkw ":" ":", tkw "{" "{", tkw "}" "}", tkw ";" ";", B _, B [tkw "}" "}", tkw ";" ";"], by decide, rfl, rfl, by decide, by simp, rfl, rfl, rfl,
+    by show 0 + 2 ≤ F; omega, ⟨rfl, ?_, baseB_ok, by show 1 + 1 + 2 ≤ F; omega, by show 1 + 1 ≤ F; omega⟩,
+    Y [_, _, _, _, _, _, _, _, _, _, _, _] _ (by decide), ?_, Y [_, _] _ (by decide)⟩
+  · intro q hq
+    simp only [List.mem_singleton] at hq
+    subst hq
+    exact ⟨baseA_ok, rfl, by show 1 + 0 + 2 ≤ F; omega⟩
+  · exact .cons (b1 := B _) ⟨vdecl_ok "f" (by decide) F (by omega), Y [_, _, _] _ (by decide)⟩ (.nil _)
 end nonvacuity
 
 end Cxx
